@@ -168,6 +168,54 @@ fn fmt_cmd(args: &[String]) -> i32 {
     }
 }
 
+/// `sv libfmt`: batch reference formatter for the CLI monitors (O-lib). One JSON request per line on
+/// stdin: {"src":..,"cfg":{..},"range":[s,e]|null,"verify":bool}; one JSON reply per line.
+/// The Config is built from the explicit field list through the Rust enum variants (cfg.rs), not
+/// through serde/clap/ec4rs, so it is independent of the decoders C20 compares.
+fn libfmt_cmd() -> i32 {
+    use std::io::BufRead;
+    fmt::install_quiet_panic_hook();
+    let h = std::thread::Builder::new()
+        .stack_size(1 << 30)
+        .spawn(|| {
+            let stdin = std::io::stdin();
+            let stdout = std::io::stdout();
+            for line in stdin.lock().lines() {
+                let line = match line {
+                    Ok(l) => l,
+                    Err(_) => break,
+                };
+                if line.trim().is_empty() {
+                    continue;
+                }
+                let reply = match serde_json::from_str::<Value>(&line) {
+                    Err(e) => json!({"error": format!("bad request: {e}")}),
+                    Ok(req) => match cfg::Cfg::from_json(&req["cfg"]) {
+                        None => json!({"error": "bad cfg"}),
+                        Some(c) => {
+                            let src = req["src"].as_str().unwrap_or("");
+                            let range = ctx::range_from_json(&req["range"]);
+                            let verify = req["verify"].as_bool().unwrap_or(false);
+                            let o = fmt::run(src, &c, range, false, verify);
+                            match o.result {
+                                Ok(t) => json!({"ok": t}),
+                                Err(fmt::FmtErr::Parse(m)) => json!({"parse_error": m}),
+                                Err(fmt::FmtErr::Verify(m)) => json!({"verify_error": m}),
+                                Err(fmt::FmtErr::Panic(m)) => json!({"panic": m}),
+                            }
+                        }
+                    },
+                };
+                let mut out = stdout.lock();
+                let _ = writeln!(out, "{}", reply);
+                let _ = out.flush();
+            }
+        })
+        .unwrap();
+    let _ = h.join();
+    0
+}
+
 fn gen_cmd(args: &[String]) -> i32 {
     let seed: u64 = args.first().and_then(|x| x.parse().ok()).unwrap_or(0);
     let n: u64 = args.get(1).and_then(|x| x.parse().ok()).unwrap_or(1);
@@ -200,6 +248,7 @@ fn main() {
         Some("replay") => replay(&args[1..]),
         Some("fmt") => fmt_cmd(&args[1..]),
         Some("gen") => gen_cmd(&args[1..]),
+        Some("libfmt") => libfmt_cmd(),
         _ => {
             eprintln!("usage: sv worker|replay|fmt|gen ...");
             3
